@@ -264,3 +264,14 @@ PROPS["C10"] = dict(
     outside="WHEN Connection::poll consults the kernel: the four-way idleness condition (no negotiating streams, no requested outbound streams, no active streams not marked ignore_for_keep_alive, handler keep-alive) lives inside Connection::poll over FuturesUnordered/muxer/handler state and is not decided — a change there is not detected; ActiveStreamCounter",
     stubs=[TRACING, WEBTIME, TIMER], assumptions=[], hooks=["hook: libp2p_swarm::verif_hooks::{new_shutdown_kind, idle_delay} (wrappers calling compute_new_shutdown / checked_add_fraction)"],
 )
+
+PROPS["C19"] = dict(
+    group="wire", files=["c19.rs"], kani_args=FS200,
+    explanation=(
+        "libp2p_pnet::parse_hex_key (the key-line parser behind PreSharedKey::from_str) on a 64-byte line of hex digits "
+        "with a symbolic 4-byte window (start / end; middle and odd offset in thorough) constrained only to valid UTF-8: "
+        "never panics; a line of hex digits parses to exactly the bytes it spells; a line that parses is ASCII."),
+    bounds="line length 64 bytes; 4 symbolic bytes per instance at offsets {0, 60} (quick) + {30, 31} (thorough), the other 60 bytes are 'a'; unwind 70",
+    outside="PreSharedKey::from_str's line splitting and header comparison; Display/to_key_file (format! machinery) and therefore the print->parse round trip; lines of other lengths; the plaintext handshake and pnet stream transparency (XSalsa20 + async I/O)",
+    stubs=[TRACING, FMT], assumptions=[FORGET], hooks=["hook: libp2p_pnet::verif_hooks::parse_hex_key (wrapper calling the private function)"],
+)
